@@ -57,7 +57,53 @@ fn one_run(chunk: usize) -> Result<(String, u64), String> {
     })
 }
 
+fn simnet_run() -> Result<String, String> {
+    use crate::env::{node::{Monitor, MonitorCmd}, simnet::{NodeCmd, World}};
+    use litep2p::config::ConfigBuilder;
+    let rt = driver::runtime(3);
+    let _g = rt.enter();
+    let mut w = World::new();
+    let (m0, h0) = Monitor::new("/verif/monitor/1");
+    let (m1, h1) = Monitor::new("/verif/monitor/1");
+    let a = w.add_node(1, ConfigBuilder::new().with_user_protocol(m0))?;
+    let b = w.add_node(2, ConfigBuilder::new().with_user_protocol(m1))?;
+    let (pb, addr_b) = (w.nodes[b].peer, w.nodes[b].address.clone());
+    w.nodes[a].cmd.send(NodeCmd::DialAddress(addr_b)).unwrap();
+    if !w.run_to_quiescence(100_000) {
+        return Err("step cap".into());
+    }
+    h0.cmd.send(MonitorCmd::OpenSubstream(pb)).unwrap();
+    if !w.run_to_quiescence(100_000) {
+        return Err("step cap".into());
+    }
+    let steps_open = w.driver.steps;
+    // cut the link: both sides must see the connection closed
+    w.cut_link(0);
+    if !w.run_to_quiescence(100_000) {
+        return Err("step cap".into());
+    }
+    Ok(format!(
+        "steps={} (after open {steps_open}) tasks={} A.events={:?} B.events={:?} A.mon={:?} B.mon={:?} breaches={:?}",
+        w.driver.steps,
+        w.driver.tasks.len(),
+        w.nodes[a].log.lock().len(),
+        w.nodes[b].log.lock().len(),
+        h0.log.lock(),
+        h1.log.lock(),
+        w.contract_breaches
+    ))
+}
+
 pub fn run() -> i32 {
+    let a = simnet_run();
+    let b = simnet_run();
+    match (&a, &b) {
+        (Ok(x), Ok(y)) if x == y => println!("selftest simnet: ok {x}"),
+        _ => {
+            println!("selftest simnet: FAILED\n  first:  {a:?}\n  second: {b:?}");
+            return 2;
+        }
+    }
     for chunk in [usize::MAX, 1, 7] {
         let a = one_run(chunk);
         let b = one_run(chunk);
